@@ -14,6 +14,8 @@ import Pandora.Proofs.C05Eng
 import Pandora.Proofs.C05Sys
 import Pandora.Proofs.C05Ctx
 import Pandora.Bridge.C05Engine
+import Pandora.Proofs.C05Inst
+import Pandora.Bridge.C05Wait
 
 namespace Pandora.Props.C05
 open Pandora.Model.C05 Pandora.Proofs.C05
@@ -770,5 +772,107 @@ example : ¬ QuiescentFin Cfg.repaired (run Cfg.repaired [.warm (.ok true), .sch
   decide
 -- WaitGroup: two finished pools
 example : wgCounter ([cleanWitness, waitWitness].map (run Cfg.repaired)) = some 0 := by decide
+
+
+/-! ### how one instance ends (`Model.C05.Inst`: the loop of `instance.Run` over `coreutil.Waiter`) — for EVERY list of
+passes: every moment of the cancel, every answer of the provider, any number of tokens other instances take from a
+shared schedule in between, due / sleeping / overdue tokens, `discard_overflow` on or off, a panic in any shot -/
+
+section Instance
+open Pandora.Model.C05.Inst Pandora.Proofs.C05Inst
+
+/-- "succeeds only if … ran out of ammo or schedule", instance level: `instance.Run` returns nil ONLY when its schedule
+has no token left and the run context was not done when it was read last. -/
+theorem C05_instance_ok_only_if_schedule_finished (discard : Bool) (s s' : St) (ps : List Pass) :
+    loop discard s ps = (s', some .ok) → s'.left = 0 ∧ s'.ctx = false :=
+  (run_spec discard ps s s').1
+
+/-- … and it returns `outOfAmmoErr` ONLY when `provider.Acquire` said there is no ammo, while the context was live and
+the schedule still had tokens. -/
+theorem C05_instance_ooa_only_if_provider_dry (discard : Bool) (s s' : St) (ps : List Pass) :
+    loop discard s ps = (s', some .ooa) → (∃ p ∈ ps, p.ammoOk = false) ∧ s'.ctx = false ∧ s'.left ≠ 0 :=
+  (run_spec discard ps s s').2.1
+
+/-- the context's error comes out only of a cancelled context -/
+theorem C05_instance_ctx_only_if_cancelled (discard : Bool) (s s' : St) (ps : List Pass) :
+    loop discard s ps = (s', some .ctx) → s'.ctx = true :=
+  (run_spec discard ps s s').2.2.1
+
+/-- any other error is the value of a shot's panic (the deferred `recover`) -/
+theorem C05_instance_err_only_if_panic (discard : Bool) (s s' : St) (ps : List Pass) (e : ErrId) :
+    loop discard s ps = (s', some (.err e)) → ∃ p ∈ ps, p.panics = some e :=
+  (run_spec discard ps s s').2.2.2 e
+
+/-- accounting, at every moment and however the loop ends (return, panic, cancel): every acquired ammo has been released;
+shots fired and discarded never exceed the tokens taken, which never exceed what the schedule had; at most one ammo
+is acquired beyond the tokens taken, and only in the pass that finds the schedule finished or the context done. -/
+theorem C05_instance_accounting (discard : Bool) (n : Nat) (ps : List Pass) :
+    let s' := (loop discard { left := n } ps).1
+    s'.rel = s'.acq ∧ s'.shots + s'.disc ≤ s'.taken ∧ s'.taken + s'.left ≤ n ∧ s'.acq ≤ s'.taken + 1 := by
+  have h := run_inv discard n ps { left := n } ⟨rfl, by simp, by simp, Or.inl (by simp)⟩
+  refine ⟨h.balanced, h.fired, h.tokens, ?_⟩
+  rcases h.ammo with h | h <;> omega
+
+/-- an instance with a schedule of its own that nobody disturbs never acquires an ammo it has no token for
+("not consume extra ammo on finish in case of per instance schedule"): acquired = tokens taken ≤ n. -/
+theorem C05_instance_no_extra_ammo (discard : Bool) (n : Nat) (ps : List Pass) (hq : ∀ p ∈ ps, p.quiet) :
+    (loop discard { left := n } ps).1.acq = (loop discard { left := n } ps).1.taken ∧
+    (loop discard { left := n } ps).1.acq ≤ n := by
+  have h1 := run_quiet discard ps { left := n } hq ⟨rfl, rfl⟩
+  have h2 : (loop discard { left := n } ps).1.taken + (loop discard { left := n } ps).1.left ≤ n :=
+    (C05_instance_accounting discard n ps).2.2.1
+  exact ⟨h1, by omega⟩
+
+/-- termination: a loop over a schedule with `n` tokens returns within `n + 1` passes, whatever happens in them
+(every pass that does not return takes a token or leaves nothing to come back for). -/
+theorem C05_instance_terminates (discard : Bool) (n : Nat) (ps : List Pass) (h : n < ps.length) :
+    (loop discard { left := n } ps).2.isSome = true := by
+  apply run_terminates
+  have : rank { left := n } ≤ n := by unfold rank; split <;> simp
+  omega
+
+/-- the instance theorems speak about the CURRENT source of `core/coreutil`: every regenerated path through
+`Waiter.Wait` is one of the five ways of `waitOut` (and returns / takes a token as the model says: the context is
+looked at before the schedule is asked), `IsFinished` is "context done, else `Left() == 0`", `IsSlowDown` is never true
+under a done context, and the finish callback of the shared schedule fires exactly when the wrapped schedule says it is
+finished; in the model a pass that reaches `Wait` takes a token, fires or discards exactly as `waitOut` says. -/
+theorem C05_source_waiter_is_model (d : Bool) (s : St) (p : Pass)
+    (h1 : Inst.isFinished (s.ctx || p.cancel1) (s.left - p.stolen) = false) (h2 : p.ammoOk = true) :
+    (let w := waitOut (s.ctx || p.cancel1 || p.cancel2) (s.left - p.stolen - p.stolen2) p.due p.timerWins
+     (pass d s p).1.taken = s.taken + (if w.takes then 1 else 0) ∧
+     (pass d s p).1.shots + (pass d s p).1.disc = s.shots + s.disc + (if w.ok then 1 else 0) ∧
+     (w.ok = false → (pass d s p).2 = none)) ∧
+    [WaitOut.ctxAtEntry, .noToken, .due, .timer, .ctxAsleep].all
+      (fun k => Pandora.Gen.C05Wait.wait.any (fun q => Pandora.Bridge.C05Wait.waitKind q == some k)) = true ∧
+    Pandora.Gen.C05Wait.wait.all (fun q => match Pandora.Bridge.C05Wait.waitKind q with
+      | some k => q.retText == Pandora.Bridge.C05Wait.boolText k.ok && (q.has (.cond "‹res0›") == k.takes)
+      | none => false) = true := by
+  have hw := pass_wait d s p h1 h2
+  exact ⟨⟨hw.1, hw.2.1, hw.2.2.1⟩, Pandora.Bridge.C05Wait.wait_is_model.2, Pandora.Bridge.C05Wait.wait_is_model.1⟩
+
+-- non-vacuity: a pass that reaches `Wait`
+example : Inst.isFinished (({ left := 2 } : St).ctx || ({} : Pass).cancel1) (2 - 0) = false := by decide
+
+-- non-vacuity: three tokens, plenty of ammo: three shots, then nil, nothing left
+example : loop false { left := 3 } [{}, {}, {}, {}] =
+    ({ left := 0, acq := 3, rel := 3, taken := 3, shots := 3 }, some .ok) := by decide
+-- the provider runs dry at the third pass
+example : (loop false { left := 3 } [{}, {}, { ammoOk := false }, {}]).2 = some .ooa := by decide
+-- a shared schedule: the others take the last two tokens between `Left()` and `Next()`: ammo acquired, released, nil
+example : loop false { left := 3 } [{}, { stolen2 := 2 }, {}] =
+    ({ left := 0, acq := 2, rel := 2, taken := 1, shots := 1 }, some .ok) := by decide
+-- the cancel arrives while the instance sleeps for its second token
+example : (loop false { left := 5 } [{}, { due := false, timerWins := false }, {}]).2 = some .ctx := by decide
+-- overdue tokens with discard_overflow: discarded instead of shot, the loop still ends by the schedule
+example : loop true { left := 2 } [{ overdue := true }, { overdue := true }, {}] =
+    ({ left := 0, acq := 2, rel := 2, taken := 2, disc := 2 }, some .ok) := by decide
+-- a panic in the second shot: the ammo is released all the same
+example : loop false { left := 5 } [{}, { panics := some 7 }, {}] =
+    ({ left := 3, acq := 2, rel := 2, taken := 2, shots := 2 }, some (.err 7)) := by decide
+-- `quiet` passes exist and the bound of `C05_instance_terminates` is sharp: n passes are not enough
+example : ({} : Pass).quiet := by simp [Pass.quiet]
+example : (loop false { left := 3 } [{}, {}, {}]).2 = none := by decide
+
+end Instance
 
 end Pandora.Props.C05
